@@ -42,6 +42,39 @@ claimed = {
          "Decides structural necessary conditions only: Go encoder/decoder and Python write/read layouts all equal the spec table (so they agree with each other), opcode values and magic agree, attachment CRC scope and offset conventions agree. Does not decide any dynamic reader behaviour.",
          "Trusts go/types, Python's ast module and this checker; the Python side is parsed, never executed.",
          "DESIGN.md section 3 C16"),
+ "C02": ("SSA path rules (E4/E6): silent-skip classification of table lookups vs the index gate; must-pass-through for the metadata callback; offset-convention patterns; dominance of the gate; buffer-origin analysis for chunk slots",
+         "Decides structural necessary conditions only: every table on which the index path silently skips messages is consulted by the gate; the metadata callback is invoked per indexed record; random-access offsets follow the writer's convention; the indexed iterator is only returned behind a true gate; chunk slots own their bytes; binding keys. Does not decide element-wise equality with the scan.",
+         "Trusts go/types, go/ssa and this checker.", "DESIGN.md section 3 C02"),
+ "C03": ("SSA pattern rules (E7): stable-sort API resolution, comparator shape, key agreement between chunk sort and load trigger, CFG reachability for re-evaluation after a load",
+         "Decides structural necessary conditions only: stable sort + strict single-key comparators with the order's direction; chunk order key equals the load-trigger key; reverse segment reversal; the load trigger is re-evaluated after every chunk load. Does not decide that the merge yields every message exactly once in order.",
+         "Trusts go/types, go/ssa and this checker.", "DESIGN.md section 3 C03"),
+ "C04": ("predicate normalisation from typed ASTs with helper inlining, compared over all orderings of the compared terms (E7); store/load sets for read options; buffer-origin analysis for the cached Info",
+         "Decides structural necessary conditions only: yield predicate equivalent to start <= t && (t < end || end == MAX) in both iterators; chunk pruning implied by exact overlap; every read option reaches the iterator; identical topic filter; cached Info never mutated. Does not decide equality with the filtered full read on concrete files.",
+         "Trusts go/types and this checker; formulas are compared by enumerating total preorders of at most 7 terms.", "DESIGN.md section 3 C04"),
+ "C06": ("call-order / dominance rules on go/ssa (E4): checksum reads vs sink writes vs resets; who-may-call and receiver-origin rules for the CRC accumulators (E5)",
+         "Decides structural necessary conditions only: order of data-CRC read, DataEnd, reset, summary; footer CRC read between prefix write and CRC write; attachment CRC accumulator fresh per attachment and scoped to bytes 9..data; wrappers hash what they forward; single owner of the sink; IEEE polynomial; 0 when disabled. Does not decide CRC values.",
+         "Trusts go/types, go/ssa, VTA call graph and this checker.", "DESIGN.md section 3 C06"),
+ "C07": ("dominance rules on go/ssa (E4): CRC comparison vs exposure of the buffer; error-flow (E3); who-may-store rule for the parsed-CRC cache",
+         "Decides structural necessary conditions only: the CRC comparison's pass branch dominates installing the validated buffer as reader and a mismatch returns the error; the hashed buffer is the one filled by a full read; loadChunk errors reach Next's caller; crcReader hashes exactly p[:n]; attachment fields/data pass the crcReader and the stored CRC comes from the base reader; the parsed-CRC slot has one writer. Does not decide detection power or decompressor behaviour.",
+         "Trusts go/types, go/ssa and this checker.", "DESIGN.md section 3 C07"),
+ "C08": ("increment-site / dominance rules on go/ssa (E5); guard recognition for the chunk time fold; Info literal and summary-arm tables from typed ASTs (E6); E1 for the Statistics record",
+         "Decides structural necessary conditions only: one increment site per counter dominating every successful return after the record's writes; first-message test after the increment; chunk time fold guarded (has-messages, direct-chunk mode); Info populated from every table and every summary record kind handled; Statistics layout. Does not decide aggregate values.",
+         "Trusts go/types, go/ssa and this checker.", "DESIGN.md section 3 C08"),
+ "C09": ("who-may-call rule for Seek/WriteAt/Truncate (E5); dominance of full reads over record returns (E4); E3 error classification; E2 bounded input",
+         "Decides structural necessary conditions only: append-only writer; records returned only after a dominating full read of their declared length; EOF classification discipline; bounded input. Does not decide the prefix property through streaming decompressors.",
+         "Trusts go/types, go/ssa, VTA call graph and this checker.", "DESIGN.md section 3 C09"),
+ "C11": ("switch-arm tables from typed ASTs vs the spec's opcode list (E6); comparison-shape rules for parsers; raw-derivation of loop bounds (E2 facts); who-may-use rule for the base reader",
+         "Decides structural necessary conditions only: the lexer has an arm per specified opcode and skips all others by length; extensible-record parsers use minimum-length tests only, never read an open tail and bound repetitions by the declared length; attachment remainder skipped; record bodies consumed from the active reader only. Does not decide that reports are unchanged under padding.",
+         "Trusts go/types, go/ssa and this checker; the spec's opcode list is the oracle.", "DESIGN.md section 3 C11"),
+ "C12": ("per-arm read/write sets of the summary switch from typed ASTs (E6); case-label sets of the two chunk decoders; buffer-origin analysis",
+         "Decides structural necessary conditions only: summary handlers commute (no inter-arm read/write or write/write dependency except the terminal footer arm); both chunk decoders accept the same compressions; chunk slots own their bytes; optional parts not required. Does not decide content equality across layouts.",
+         "Trusts go/types, go/ssa and this checker.", "DESIGN.md section 3 C12"),
+ "C17": ("switch/literal tables of the conformance tools from typed ASTs (E6) vs TestFeatures in types.ts and the 416 JSON expectation vectors; constant evaluation of the tool's snake-casing regexps; plus the C05/C08/C11 rule sets",
+         "Decides structural necessary conditions only: feature->option table total and correct; a handler for every input record type and field; printed field/type names equal the vectors'; summary group order consistent with the vectors; the writer/parser rules the expectations depend on. Does not decide byte equality of tool output.",
+         "Trusts go/types and this checker; types.ts is read with a regular expression (no TypeScript front end).", "DESIGN.md section 3 C17"),
+ "C20": ("use-set rule for the attachment source, CFG reachability for the attachment arm, store-shape and pairing rules for the slot counter, guard recognition for buffer growth (E4/E5)",
+         "Decides structural necessary conditions only: attachments are streamed on both sides; the slot unread counter is only incremented with an index append and decremented with the cursor advance; slots and buffers are reused before grown; chunks are loaded only from NextInto. Does not decide measured memory or the overlap-depth bound.",
+         "Trusts go/types, go/ssa and this checker.", "DESIGN.md section 3 C20"),
 }
 na_reason = "check not built yet (build in progress, see DESIGN.md section 7.2)"
 
